@@ -195,7 +195,9 @@ def main():
         "violations": len(violations),
     }
     os.makedirs(EVIDENCE_DIR, exist_ok=True)
-    with open(os.path.join(EVIDENCE_DIR, prop + ".json"), "w") as f:
+    # a filtered debugging run (VERIF_ONLY) is not a run of the check: it leaves the evidence file alone
+    target = os.path.join(EVIDENCE_DIR, prop + ".json") if not only else os.path.join(kanirun.OUT_DIR, prop + ".debug-evidence.json")
+    with open(target, "w") as f:
         json.dump(evidence, f, indent=1)
 
     for k, name in known_hits:
